@@ -112,7 +112,16 @@ where
                     if i >= n_runs {
                         break;
                     }
-                    let rep = f(run_seed(base_seed, prop, i), i);
+                    // a panic of the harness itself (not of the code under test, which runs under its own
+                    // catch_unwind) is a harness error of that run: exit 2, never a verdict and never a crash
+                    let rep = match std::panic::catch_unwind(std::panic::AssertUnwindSafe(|| f(run_seed(base_seed, prop, i), i))) {
+                        Ok(rep) => rep,
+                        Err(_) => {
+                            let mut r = RunReport::default();
+                            r.harness_errors.push(format!("the harness panicked in run index {i} (seed {})", run_seed(base_seed, prop, i)));
+                            r
+                        }
+                    };
                     results.lock().unwrap().push((i, rep));
                     if t0.elapsed().as_secs_f64() > cap_s {
                         stop.store(true, Ordering::Relaxed);
